@@ -16,8 +16,9 @@
 (*    set of versions it has been pruned with; an entry is still inside it *)
 (*    iff every one of those prunings kept it.                             *)
 (*                                                                         *)
-(* Versions are integers x10 (7.6 -> 76).  Bounds: NoMin = 0, NoMax =      *)
-(* 10000.  Entries, paths and probe documents are structure extracted from *)
+(* Versions are rationals with two decimals, held as integers x100 (7.6 ->  *)
+(* 760, 7.64 -> 764): a supplied version need not be a published one.       *)
+(* Bounds: NoMin = 0, NoMax = 100000.  Entries, paths and probe documents are structure extracted from *)
 (* the schemas of the current tree by harness/versions.py; no verdict is   *)
 (* computed outside this module.                                           *)
 (***************************************************************************)
@@ -33,6 +34,9 @@ CONSTANTS
                     \*   schema is cached is a shallow copy of it - the nested objects are shared, so
                     \*   pruning one prunes all of them (negative config)
     Ops,            \* the kinds of call a history may contain
+    Forms,          \* argument forms of validate: "dict" one root object | "list1" a list holding one
+                    \*   root | "list2" a list of two roots (what loads returns for a multi-root Mapfile)
+    Fine,           \* distances (in hundredths) of the non-tenth probe versions from every bound
     MaxCalls,       \* length bound of a call history
     Mode            \* "mc" exhaustive histories | "sim" random histories with emission |
                     \* "all" exhaustive histories of exactly MaxCalls calls with emission |
@@ -40,11 +44,12 @@ CONSTANTS
 
 (* Structure extracted from the schemas of the current tree (harness/versions.py), handed over as   *)
 (* one JSON file (a cfg file cannot hold tuples):                                                    *)
-(*   entries  [[entry id, minVersion x10, maxVersion x10]]                                           *)
+(*   entries  [[entry id, minVersion x100, maxVersion x100]]                                           *)
 (*   defaults [[schema name, entry id]]   annotated keywords of that schema carrying a default       *)
 (*   paths    [[schema name, entry id, guards]]  a path from the root schema to the entry; guards =  *)
 (*            the annotated entries crossed on the way (its annotated ancestors)                     *)
-(*   docs     [{id, root, entry | "", covers, guards, shadow, fault}]  probe documents               *)
+(*   docs     [{id, root, entry | "", covers, guards, shadow, fault, fine}]  probe documents         *)
+(*            fine   = probe it at the non-tenth versions next to its bounds as well                 *)
 (*            covers = annotated alternatives / keyword / object the probe value relies on           *)
 (*            guards = annotated entries on the path from the root to it                             *)
 (*            shadow = an unannotated alternative admits the value as well                           *)
@@ -59,9 +64,9 @@ VARIABLES raw, exp, answer, last, ncalls, hist, target
 
 vars == <<raw, exp, answer, last, ncalls, hist, target>>
 
-NoVersion == 100000
+NoVersion == 1000000
 NoMin     == 0
-NoMax     == 10000
+NoMax     == 100000
 VersionsN == Versions \cup {NoVersion}
 
 -----------------------------------------------------------------------------
@@ -78,7 +83,7 @@ Accept(i, v) == v = NoVersion \/ (MinOf[i] <= v /\ v <= MaxOf[i])
 (* Documents                                                               *)
 
 Doc(t)   == [id |-> t.id, root |-> t.root, entry |-> t.entry, covers |-> ToSet(t.covers),
-             guards |-> ToSet(t.guards), shadow |-> t.shadow, fault |-> t.fault]
+             guards |-> ToSet(t.guards), shadow |-> t.shadow, fault |-> t.fault, fine |-> t.fine]
 DocRecs  == {Doc(t) : t \in ToSet(Data.docs)}
 DocById  == [i \in {d.id : d \in DocRecs} |-> CHOOSE d \in DocRecs : d.id = i]
 AllNames == Names \cup {d.root : d \in DocRecs}
@@ -131,6 +136,8 @@ Touch(e, n, v) ==
 \* answers computed by the mechanism from a cache state e (after the call)
 MechValidate(e, d, v) ==
     [reject |-> d.fault \/ (v # NoVersion /\ ~DocInC(Obj(e, Key(d.root, v)), d))]    \* no version: raw schema
+\* a list of roots: the messages of all of them
+MechSeq(e, ds, v)     == [reject |-> \E i \in DOMAIN ds : MechValidate(e, DocById[ds[i]], v).reject]
 MechSchema(e, n, v)   == [absent |-> AbsentC(Obj(e, Key(n, v)), n)]
 MechCreate(e, n, v)   == [defaults |-> {p[2] : p \in {q \in Defaults : q[1] = n /\ InC(Obj(e, Key(n, v)), q[2])}}]
 
@@ -138,8 +145,8 @@ MechCreate(e, n, v)   == [defaults |-> {p[2] : p \in {q \in Defaults : q[1] = n 
 (* The contract: the answer as a function of the arguments only            *)
 
 Judge(c) ==
-    CASE c.op \in {"validate", "mod_validate"} ->
-            [reject |-> DocById[c.doc].fault \/ ~DocOK(DocById[c.doc], c.v)]
+    CASE c.op \in {"validate", "mod_validate"} ->       \* one root or a list of roots: each is judged
+            [reject |-> \E i \in DOMAIN c.docs : DocById[c.docs[i]].fault \/ ~DocOK(DocById[c.docs[i]], c.v)]
       [] c.op \in {"get_versioned", "export", "mod_export"} -> [absent |-> Absent(c.name, c.v)]
       [] c.op = "mod_create" -> [defaults |-> DefaultsOf(c.name, c.v)]
       [] OTHER -> [none |-> TRUE]
@@ -155,13 +162,23 @@ Record(c) ==
     /\ hist' = IF Mode \in {"sim", "all"} THEN Append(hist, [call |-> c, exp |-> Judge(c)]) ELSE hist
     /\ UNCHANGED target
 
-\* Validator.validate(doc, schema_name = root, version = v) on THE object
+\* the argument of validate built around document d: the root itself, a list holding it, a list of
+\* two roots (the second of the same root type when one schema_name serves the whole list)
+Args(d, sameRoot) ==
+    (IF "dict" \in Forms THEN {[form |-> "dict", docs |-> <<d.id>>]} ELSE {})
+    \cup (IF "list1" \in Forms THEN {[form |-> "list", docs |-> <<d.id>>]} ELSE {})
+    \cup (IF "list2" \in Forms
+          THEN {[form |-> "list", docs |-> <<d.id, x.id>>] :
+                   x \in Pick(IF sameRoot THEN {y \in DocRecs : y.root = d.root} ELSE DocRecs)}
+          ELSE {})
+
+\* Validator.validate(doc | [docs], schema_name = root, version = v) on THE object
 Validate ==
-    \E d \in Pick(DocRecs), v \in Pick(VersionsN) :
+    \E d \in Pick(DocRecs), v \in Pick(VersionsN) : \E a \in Pick(Args(d, TRUE)) :
         /\ exp' = IF v = NoVersion THEN exp ELSE Touch(exp, d.root, v)
         /\ raw' = IF v = NoVersion THEN raw \cup {d.root} ELSE raw
-        /\ answer' = MechValidate(exp', d, v)
-        /\ Record([op |-> "validate", doc |-> d.id, name |-> d.root, v |-> v])
+        /\ answer' = MechSeq(exp', a.docs, v)
+        /\ Record([op |-> "validate", docs |-> a.docs, form |-> a.form, name |-> d.root, v |-> v])
 
 \* Validator.get_versioned_schema(v, n) on THE object; the returned object is walked
 GetVersioned ==
@@ -180,12 +197,16 @@ Export ==
         /\ UNCHANGED raw
 
 \* the module-level API creates a Validator per call: a fresh cache, the object is untouched.
-\* mappyfile.validate(doc, version = v) uses the schema of the document's own root type.
+\* mappyfile.validate(doc | [docs], version = v) judges every root with the schema of its own type,
+\* all roots of one call on the same new Validator.
 ModValidate ==
-    \E d \in Pick(DocRecs), v \in Pick(VersionsN) :
-        /\ answer' = MechValidate(IF v = NoVersion THEN Fresh ELSE Touch(Fresh, d.root, v), d, v)
-        /\ Record([op |-> "mod_validate", doc |-> d.id, name |-> d.root, v |-> v])
-        /\ UNCHANGED <<raw, exp>>
+    \E d \in Pick(DocRecs), v \in Pick(VersionsN) : \E a \in Pick(Args(d, FALSE)) :
+        LET r1 == d.root
+            r2 == DocById[a.docs[Len(a.docs)]].root
+            e  == IF v = NoVersion THEN Fresh ELSE Touch(Touch(Fresh, r1, v), r2, v)
+        IN  /\ answer' = MechSeq(e, a.docs, v)
+            /\ Record([op |-> "mod_validate", docs |-> a.docs, form |-> a.form, name |-> d.root, v |-> v])
+            /\ UNCHANGED <<raw, exp>>
 
 ModExport ==            \* the `mappyfile schema [--version=v]` command, run in this process
     \E v \in Pick(VersionsN) :
@@ -246,19 +267,31 @@ Bound == ncalls <= MaxCalls
 Emit == (Mode \in {"sim", "all"} /\ ncalls = target) => PrintT(ToJson(hist))
 
 \* probe table: every document x the versions at, just below and just above the bounds of its
-\* entry (and no version); fault documents x Versions (and no version)
-VClasses(i) ==
+\* entry (and no version) - the neighbouring tenths and, for `fine` documents, the non-tenth versions
+\* at the distances Fine on either side of each bound; fault documents x Versions (and no version)
+VClasses(i, fine) ==
+    LET F == IF fine THEN Fine ELSE {} IN
     {<<"none", NoVersion>>}
-    \cup (IF MinOf[i] # NoMin THEN {<<"below-min", MinOf[i] - 1>>, <<"at-min", MinOf[i]>>} ELSE {})
-    \cup (IF MaxOf[i] # NoMax THEN {<<"at-max", MaxOf[i]>>, <<"above-max", MaxOf[i] + 1>>} ELSE {})
+    \cup (IF MinOf[i] # NoMin
+          THEN {<<"below-min", MinOf[i] - 10>>, <<"at-min", MinOf[i]>>}
+               \cup {<<"just-below-min", MinOf[i] - f>> : f \in F} \cup {<<"just-above-min", MinOf[i] + f>> : f \in F}
+          ELSE {})
+    \cup (IF MaxOf[i] # NoMax
+          THEN {<<"at-max", MaxOf[i]>>, <<"above-max", MaxOf[i] + 10>>}
+               \cup {<<"just-below-max", MaxOf[i] - f>> : f \in F} \cup {<<"just-above-max", MaxOf[i] + f>> : f \in F}
+          ELSE {})
+
+\* the verdict of mappyfile.validate for the document given as a list of n roots
+Roots(d, n, v) == ~Judge([op |-> "mod_validate", docs |-> [i \in 1..n |-> d.id], v |-> v]).reject
 
 RowsOf(d) ==
     IF d.entry = ""
     THEN {[doc |-> d.id, vc |-> "fault", v |-> v, accept |-> ~(d.fault \/ ~DocOK(d, v)),
-           own |-> TRUE, guardsok |-> TRUE] : v \in VersionsN}
+           own |-> TRUE, guardsok |-> TRUE, list1 |-> Roots(d, 1, v), list2 |-> Roots(d, 2, v)] : v \in VersionsN}
     ELSE {[doc |-> d.id, vc |-> c[1], v |-> c[2], accept |-> ~(d.fault \/ ~DocOK(d, c[2])),
            own |-> Accept(d.entry, c[2]),
-           guardsok |-> \A g \in d.guards : Accept(g, c[2])] : c \in VClasses(d.entry)}
+           guardsok |-> \A g \in d.guards : Accept(g, c[2]),
+           list1 |-> Roots(d, 1, c[2]), list2 |-> Roots(d, 2, c[2])] : c \in VClasses(d.entry, d.fine)}
 
 EmitTable == Mode = "table" => \A d \in DocRecs : PrintT(ToJson(RowsOf(d)))
 
